@@ -125,7 +125,16 @@ impl<L: Language, N: Analysis<L>> EGraph<L, N> {
                 return false;
             }
 
+            #[cfg(slotted_egraphs_verif)]
+            let verif_before: (Vec<SlotMap>, SlotMap) = (grp.generators().into_iter().map(|p| p.elem).collect(), proven_perm.elem.clone());
+
             grp.add(proven_perm);
+
+            #[cfg(slotted_egraphs_verif)]
+            {
+                let after: Vec<SlotMap> = grp.generators().into_iter().map(|p| p.elem).collect();
+                crate::verif::group_add(id.0, Some((&l.m, &r.m)), &verif_before.1, &verif_before.0, &after);
+            }
 
             self.touched_class(id, PendingType::Full);
 
